@@ -125,10 +125,16 @@ def run(binpath, args, timeout=120):
     return p.returncode, p.stdout.strip(), p.stderr.strip()
 
 
+_HINTS = {}
+
+
 def hints(info, what):
     """`tables` or `layouts` dump as a dict (untrusted hints: everything derived from them is re-checked by Verus)"""
+    if what in _HINTS:
+        return _HINTS[what]
     b = build(info)
     rc, out, err = run(b, [what])
     if rc != 0:
         raise NativeError('replayer %s failed: %s' % (what, err[-500:]))
-    return json.loads(out)
+    _HINTS[what] = json.loads(out)
+    return _HINTS[what]
